@@ -31,6 +31,8 @@ def model_agrees(rec, proj=None, final_keys=("cv", "ch", "cc")):
         return out
     if rec["X"]:
         return out            # aborted runs are handled by the judges
+    if v == "nomodel":
+        return out            # a program with calls outside Model/Conc.v (snapshot): judged only
     if not v.startswith("accepted"):
         out.append("trace not accepted by Model/Conc.v: " + v[:300])
         return out
